@@ -4,3 +4,6 @@ package pilosa
 
 // verifTranslateGate is a no-op without build tag verif (see verif_hook_translate_on.go).
 func verifTranslateGate(s *TranslateFile) {}
+
+// verifTranslateReplGate is a no-op without build tag verif.
+func verifTranslateReplGate(s *TranslateFile) {}
